@@ -58,6 +58,12 @@ def combconc(n, items, amb):
             'INVARIANTS ExactlyOneComplete AtMostOneComplete CompleteIsLast NothingLost OneWinner WinnerComplete\nCHECK_DEADLOCK FALSE\n' % (n, items, 'TRUE' if amb else 'FALSE'))
 
 
+def observeon(n, ending, unsub):
+    return ('ObserveOn', 'observeon_%d_%s_%s' % (n, ending, 'u' if unsub else 'n'),
+            'SPECIFICATION Spec\nCONSTANTS NItems = %d\n Ending = "%s"\n WithUnsub = %s\n ErrorDirect = FALSE\n'
+            'INVARIANTS OrderOK OnWorker TerminalLast NothingLost NothingAfterUnsub\nPROPERTY WorkerExits\nCHECK_DEADLOCK FALSE\n' % (n, ending, 'TRUE' if unsub else 'FALSE'))
+
+
 def timedops(n):
     return ('TimedOps', 'timedops_%d' % n,
             'SPECIFICATION Spec\nCONSTANTS D = 100\n Gaps = {40, 90, 110, 260}\n MaxEvents = %d\n CancelOnEnd = TRUE\n'
@@ -77,8 +83,9 @@ CONC = {
             [sinkconc(3, 1, ['AtMostOneTerminal']), combconc(3, 2, False), combconc(4, 1, False), combconc(3, 3, True)]),
     'C07': (['C07'], [schedqueue(2, 2, '{11}', 'deadlock_2x2')], [schedqueue(2, 3, '{11}', 'deadlock_2x3'), schedqueue(3, 1, '{11}', 'deadlock_3x1')]),
     'C08': (['C08'], [schedqueue(2, 2, '{11}', '2x2_abort_inside')], [schedqueue(2, 2, '{11}', '2x2_abort_inside'), schedqueue(2, 3, '{}', '2x3'), schedqueue(3, 1, '{11}', '3x1')]),
-    'C09': (['C09'], [schedqueue(1, 3, '{13}', 'handoff_1x3_abort_in_last')], [schedqueue(1, 3, '{13}', 'handoff_1x3_abort_in_last'), schedqueue(2, 2, '{}', 'handoff_2x2')]),
-    'C15': (['C15'], [schedqueue(1, 2, '{12}', 'lifecycle'), timedops(3)], [schedqueue(2, 2, '{11}', 'lifecycle2'), timedops(4)]),
+    'C09': (['C09'], [schedqueue(1, 3, '{13}', 'handoff_1x3_abort_in_last'), observeon(3, 'c', False), observeon(2, 'e', True)],
+            [schedqueue(1, 3, '{13}', 'handoff_1x3_abort_in_last'), schedqueue(2, 2, '{}', 'handoff_2x2'), observeon(4, 'c', True), observeon(4, 'e', True), observeon(3, 'none', True)]),
+    'C15': (['C15'], [schedqueue(1, 2, '{12}', 'lifecycle'), timedops(3), observeon(2, 'none', True)], [schedqueue(2, 2, '{11}', 'lifecycle2'), timedops(4), observeon(3, 'e', True), observeon(3, 'none', True)]),
     'C16': (['C16'], [timedops(3)], [timedops(4)]),
     'C18': (['C18'], [tovec(2, False), tovec(2, True)], [tovec(4, False), tovec(4, True)]),
     'C13': (['C13'], [], []),
